@@ -43,7 +43,7 @@ RULE = ("case = (layout description, writer options) | (JSON text, reader option
 ASSUMPTIONS = [
     "a JSON text is a NUL-free byte string: FromJsonString takes a C string and the stream classes use NUL as end marker, so the oracle judges the bytes before the first NUL",
     "numbers: integer literals in [-2^63, 2^63) are exact ints, integer literals outside [-2^63, 2^64) and all literals with fraction/exponent are doubles (RapidJSON's documented SAX protocol); literals whose double is infinite (1e999) are outside the premise 'fits a double' and only required not to crash",
-    "integer literals in [2^63, 2^64) fit a 64-bit (unsigned) integer and a double: the property's premise holds and the value must be preserved (known finding C15-uint64-wrap)",
+    "integer literals in [2^63, 2^64) fit a 64-bit (unsigned) integer and a double: the property's premise holds and the value must be preserved, exactly or as the nearest double (ArrayBuilder has no unsigned type); from_iter cannot take such a Python int (the binding casts to int64_t), so the differential half is skipped for these texts (finding C15-uint64-wrap: they used to wrap negative)",
     "texts with NaN / Infinity / -Infinity literals are malformed (RFC 8259; the reader is used without kParseNanAndInfFlag) although Python's json accepts them",
     "texts with duplicate keys in one object, with \\uD800-\\uDFFF escapes that do not form a surrogate pair, or that are not valid UTF-8 inside a string literal are outside the premise: executed, must not crash, result not judged (Python's json is lenient there, RapidJSON's default flags do not validate encodings)",
     "invalid UTF-8 outside string literals is malformed for every JSON parser and must raise",
@@ -56,8 +56,9 @@ ASSUMPTIONS = [
 ]
 PLAN = {
     "quick": [{"flavour": "plain", "cases": 20000}, {"flavour": "san", "cases": 5000}],
-    "thorough": [{"flavour": "plain", "cases": 800000}, {"flavour": "san", "cases": 200000},
-                 {"flavour": "san", "cases": 1, "workers": 1, "flags": ["--seeds", "--fuzz"]}],
+    # the last entry is the libFuzzer campaign: each of its workers runs one `fuzz` seed case (FUZZ_RUNS executions, own seed)
+    "thorough": [{"flavour": "plain", "cases": 240000}, {"flavour": "san", "cases": 80000},
+                 {"flavour": "san", "cases": 4, "workers": 4, "flags": ["--seeds", "--fuzz"]}],
 }
 WALL_CAP = {"quick": 900, "thorough": 3300}
 FORK_EACH = False
@@ -201,14 +202,18 @@ _SEED_TEXTS = ["[[1.1, 2.2, 3], [], [4, 5.5]]", "[[1.1, 2.2, 3], [blah], [4, 5.5
 _BASE_SEEDS = [{"kind": "truncate" if i % 3 == 0 else "input", "text": t, "cuts": "all", "reader": dict(_R, file=(None if i % 2 else 7))}
                for i, t in enumerate(_SEED_TEXTS)]
 SEED_CASES = list(_BASE_SEEDS)
-FUZZ_RUNS = {"quick": 20000, "thorough": 3000000}
+FUZZ_RUNS = {"quick": 20000, "thorough": 2500000}      # per fuzz worker; about 5-8 minutes of libFuzzer under ASan+UBSan
 
 
 def setup(flavour, tier):
     global SEED_CASES
     SEED_CASES = list(_BASE_SEEDS)
     if "--fuzz" in sys.argv and flavour == "san":
+        # inside a worker (python -m vlib.worker <mod> <flavour> <tier> <seed> ...) the derived per-worker seed, so that the
+        # fuzz workers of one run explore differently; VERIF_SEED otherwise
         seed = int(os.environ.get("VERIF_SEED", "1"))
+        if len(sys.argv) > 4 and sys.argv[4].isdigit():
+            seed = int(sys.argv[4]) % (2 ** 31 - 1) + 1
         runs = int(os.environ.get("VERIF_FUZZ_RUNS", FUZZ_RUNS.get(tier, 20000)))
         SEED_CASES.append({"kind": "fuzz", "seed": seed, "runs": runs, "max_len": 256})
 
@@ -910,6 +915,30 @@ def _ensure_fuzz_binary():
         raise HarnessError("fuzz target %s could not be built (make FLAVOUR=san fuzz_json)" % fuzz_binary())
 
 
+def _run_with_heartbeat(cmd, env, errpath, limit):
+    """run a long child process; while it runs, touch this worker's slot file so that the runner's per-case watchdog (which
+    looks at the slot's age) does not take a fuzzing campaign of several minutes for a hang. libFuzzer's own -timeout guards
+    single inputs; `limit` seconds bounds the whole campaign. -> (stderr text, return code)"""
+    import time
+    slot = (sys.argv[6] + ".slot") if len(sys.argv) > 6 and sys.argv[0].endswith("worker.py") else None
+    with open(errpath, "wb") as ef:
+        proc = subprocess.Popen(cmd, stdout=subprocess.DEVNULL, stderr=ef, env=env)
+        t0 = time.time()
+        while True:
+            try:
+                rc = proc.wait(timeout=10)
+                break
+            except subprocess.TimeoutExpired:
+                if slot is not None and os.path.exists(slot):
+                    os.utime(slot, None)
+                if time.time() - t0 > limit:
+                    proc.kill()
+                    proc.wait()
+                    raise HarnessError("fuzz_json did not finish its %s within %d s" % (cmd[1], limit))
+    with open(errpath, "rb") as f:
+        return f.read().decode("utf-8", "replace"), rc
+
+
 def run_fuzz(case):
     exe = fuzz_binary()
     _ensure_fuzz_binary()
@@ -921,8 +950,8 @@ def run_fuzz(case):
             f.write(s)
     cmd = [exe, "-runs=%d" % case["runs"], "-seed=%d" % case["seed"], "-max_len=%d" % case["max_len"], "-artifact_prefix=" + work + "/",
            "-print_final_stats=1", "-timeout=20", "-rss_limit_mb=4096", corpus]
-    p = subprocess.run(cmd, capture_output=True, env=_fuzz_env(), timeout=3000)
-    err = p.stderr.decode("utf-8", "replace")
+    err, rc = _run_with_heartbeat(cmd, _fuzz_env(), os.path.join(work, "stderr.txt"), limit=3000)
+    p = type("P", (), {"returncode": rc})
     stats = dict(re.findall(r"stat::(\w+):\s+(\d+)", err))
     counts = {"fuzz_executions": int(stats.get("number_of_executed_units", 0)), "fuzz_new_units": int(stats.get("new_units_added", 0))}
     import glob
